@@ -35,6 +35,7 @@ type part struct {
 	off, n   int
 	capEnd   int
 	writable bool // explicit AEAD dst (or an argument the caller reuses as dst): bytes and spare may change during the call it is handed to
+	wEnd     int  // if > 0: the dst the caller passes is capped here (x[:0:k]); what lies between wEnd and capEnd is the argument's spare capacity, not the destination's
 }
 
 // region is memory the caller owns: a backing buffer filled with canary bytes except
@@ -163,6 +164,18 @@ func (a *arena) reuseAsDst(name string) {
 	}
 }
 
+// capDst records that the dst the caller passes for the in-place argument name is capped at its length
+// (x[:0:len(x)]): the argument's spare capacity is then NOT part of the destination.
+func (a *arena) capDst(name string) {
+	for _, r := range a.regs {
+		for i := range r.parts {
+			if r.parts[i].name == name && r.parts[i].writable {
+				r.parts[i].wEnd = r.parts[i].off + r.parts[i].n
+			}
+		}
+	}
+}
+
 // freeze is called when the call has returned and its own comparison is done: the arena becomes
 // the reference for later comparisons, and nothing in it - the former dst included - may change any more.
 func (a *arena) freeze() {
@@ -174,7 +187,11 @@ func (a *arena) freeze() {
 
 func (r *region) mayChange(i int) bool {
 	for _, p := range r.parts {
-		if p.writable && i >= p.off && i < p.capEnd {
+		end := p.capEnd
+		if p.wEnd > 0 {
+			end = p.wEnd
+		}
+		if p.writable && i >= p.off && i < end {
 			return true
 		}
 	}
